@@ -289,9 +289,24 @@ def set_table(rec):
     return _TABLE
 
 
+MAPPER = "statham.schema.parser._parse_attribute_name"
+
+
 def _fn():
-    from statham.schema.parser import _parse_attribute_name
-    return _parse_attribute_name
+    """the name mapping under test: the private function when it exists, else what the public
+    parser does to a single property name (a refactor that moves the function is not a failure)"""
+    global MAPPER
+    try:
+        from statham.schema.parser import _parse_attribute_name
+        return _parse_attribute_name
+    except ImportError:
+        from statham.schema.parser import parse_element
+        MAPPER = "parse_element (single property)"
+
+        def via_parser(s):
+            cls = parse_element({"type": "object", "title": "T", "properties": {s: {}}})
+            return next(iter(cls.properties))
+        return via_parser
 
 
 def nfkc(s):
